@@ -8,13 +8,13 @@ ids = [json.loads(l)["id"] for l in open(f"{V}/properties.jsonl")]
 CHECKS = {
  "C01": dict(
   cat="exploration", ref="DESIGN.md §4 C01",
-  technique="grammar-based generation of accepted configurations (whole action grammar, non-latching) x generated physically consistent histories incl. capacity bursts, run on the real state machine through a loop emulation; oracle = end-state invariant (nothing down at the OS, no further output, idle and can-block) after an adaptive settle period with a hard bound derived from the configuration; proptest + ddmin shrinking",
+  technique="grammar-based generation of accepted configurations (whole action grammar, non-latching) x generated physically consistent histories incl. capacity bursts, run on the real state machine through a loop emulation; oracle = end-state invariant (nothing down at the OS, no further output, idle and can-block) after an adaptive settle period with a hard bound derived from the configuration; proptest + ddmin shrinking; the thorough tier adds coverage-guided fuzzing (cargo-fuzz / libFuzzer, 16 processes) of the generator's tape of choices with the same judge function as in-target oracle",
   text="After the last release the harness keeps ticking (calling the idle-blocking decision every ms so that on-idle actions run) until kanata has been completely quiet for 300 consecutive ticks; if that does not happen within 6 x (sum of configured timeouts + macro lengths) + 6000 ticks the case is a violation naming what is stuck. Capacity configs press 33-40 keys within a tick, hold > 64 states, > 8 tap-holds, > 16 one-shots, > 4 macros.",
   note="Latching constructs are excluded by construction (and rejected by the judge so shrinking cannot drift there). Seven capacity / custom-event defects are recorded as known findings (F6 F6b F28 F29 F30 F31 F32) and recognised by observable classifiers (queue full at an input call, state vector full, two custom states changing in one tick, action queue never draining, ...); two defects (F22, F7) were repaired with fix: commits."),
 
  "C02": dict(
   cat="exploration", ref="DESIGN.md §4 C02",
-  technique="grammar-based generation of accepted configurations (tape-driven generator over the whole action grammar, boundary numerics, actions in every context) x unrestricted generated event histories, run on the real state machine in isolated workers; oracle = no panic / error / abort / hang; proptest + ddmin shrinking",
+  technique="grammar-based generation of accepted configurations (tape-driven generator over the whole action grammar, boundary numerics, actions in every context) x unrestricted generated event histories, run on the real state machine in isolated workers; oracle = no panic / error / abort / hang; proptest + ddmin shrinking; the thorough tier adds coverage-guided fuzzing (cargo-fuzz / libFuzzer with AddressSanitizer, 16 processes) of the generator's tape of choices with the same judge function as in-target oracle",
   text="Every accepted generated configuration is driven with physically impossible histories too (repeated presses, releases of keys that are up, taps, repeats, floods of up to 5000 events, gaps at every timeout boundary and beyond the u16 range), half of them through the idle-blocking decision as well. Any panic (overflow checks and debug assertions on), error return, abort or confirmed hang is a violation, attributed to the exact case by the driver and shrunk.",
   note="Three chords-v2 capacity assertions (F4a-c) are recorded as known findings; their triggers (floods / repeated presses with chords v2 configured) are excluded from the generator by construction so the search continues behind them. Seven run-time crash defects found by this check were repaired with fix: commits; witnesses in regress/C02 are replayed first."),
 
@@ -150,7 +150,7 @@ for i in ids:
         m["checks"].append({
             "property_id": i,
             "quick_cmd": f"cd /verif && ./check {i} quick",
-            "thorough_cmd": f"cd /verif && ./check {i} thorough" + (" && ./fuzz/run_c03.sh 600" if i == "C03" else ""),
+            "thorough_cmd": f"cd /verif && ./check {i} thorough" + (" && ./fuzz/run_c03.sh 600" if i == "C03" else f" && ./fuzz/run_tape.sh {i} 600" if i in ("C01", "C02") else ""),
             "evidence_file": f"/verif/evidence/{i}.json",
             "replay_cmd_template": f"cd /verif && ./check {i} --replay {{path}}",
             "engine": "vcheck",
